@@ -213,6 +213,7 @@ IsoResult eval_isolated(const Property &P, const json &plan, int timeout_s)
 		close(pe[1]);
 		signal(SIGALRM, SIG_DFL);
 		alarm(timeout_s);
+		capture_stdout();
 		JudgeOut o = P.judge(plan);
 		std::string s = judge_to_json(o).dump();
 		write_all(po[1], s);
@@ -575,6 +576,7 @@ struct WorkerSlot {
 static void worker_main(const Property &P, const CheckArgs &a, int lane, int nlanes, uint64_t start_idx, int fd, double deadline)
 {
 	signal(SIGALRM, SIG_DFL);
+	capture_stdout(); // a private stdout capture: the memfd must not be shared between workers
 	Counters total;
 	uint64_t evals = 0, runs = 0, discarded = 0;
 	std::vector<json> samples;
@@ -750,6 +752,7 @@ int run_check(const CheckArgs &a)
 				samples.push_back(truncate_sample(json::parse(line.substr(2))));
 		} else if (t == 'N') {
 			nondet++;
+			fprintf(stderr, "nondeterminism at run index %s\n", line.c_str() + 2);
 		} else if (t == 'D') {
 			s.done = true;
 		}
